@@ -306,3 +306,6 @@ def check(ctx):
         'equality of the evaluated command lines, working directories and '
         'environments across the three files']
     sibling(ctx)
+    # the two helpers that stand between a handler and the statement it
+    # registers must forward the same arguments (shared with C03)
+    c03.pass_through(ctx)
